@@ -207,12 +207,17 @@ func TypeBindingClauseHook(t StatementType) ClauseHook {
 func dataAccumulator(b literal.Builder) ElementHook {
 	var (
 		hook ElementHook
+		cur  *Statement
 		s    *node.Node
 		p    *predicate.Predicate
 		o    *triple.Object
 	)
 
 	hook = func(st *Statement, ce ConsumedElement) (ElementHook, error) {
+		if st != cur {
+			// A new statement never continues the triple of a previous one.
+			cur, s, p, o = st, nil, nil, nil
+		}
 		if ce.IsSymbol() {
 			return hook, nil
 		}
@@ -354,9 +359,14 @@ func whereInitWorkingClause() ClauseHook {
 func whereSubjectClause() ElementHook {
 	var (
 		hook         ElementHook
+		cur          *Statement
 		lastNopToken *lexer.Token
 	)
 	hook = func(st *Statement, ce ConsumedElement) (ElementHook, error) {
+		if st != cur {
+			// A modifier keyword seen in a previous statement does not apply to this one.
+			cur, lastNopToken = st, nil
+		}
 		if ce.IsSymbol() {
 			return hook, nil
 		}
@@ -509,9 +519,14 @@ func processPredicateBound(ce ConsumedElement) (string, string, string, *time.Ti
 func wherePredicateClause() ElementHook {
 	var (
 		hook         ElementHook
+		cur          *Statement
 		lastNopToken *lexer.Token
 	)
 	hook = func(st *Statement, ce ConsumedElement) (ElementHook, error) {
+		if st != cur {
+			// A modifier keyword seen in a previous statement does not apply to this one.
+			cur, lastNopToken = st, nil
+		}
 		if ce.IsSymbol() {
 			return hook, nil
 		}
@@ -581,9 +596,14 @@ func wherePredicateClause() ElementHook {
 func whereObjectClause() ElementHook {
 	var (
 		hook         ElementHook
+		cur          *Statement
 		lastNopToken *lexer.Token
 	)
 	hook = func(st *Statement, ce ConsumedElement) (ElementHook, error) {
+		if st != cur {
+			// A modifier keyword seen in a previous statement does not apply to this one.
+			cur, lastNopToken = st, nil
+		}
 		if ce.IsSymbol() {
 			return hook, nil
 		}
@@ -785,9 +805,14 @@ func whereFilterClause() ElementHook {
 func varAccumulator() ElementHook {
 	var (
 		hook         ElementHook
+		cur          *Statement
 		lastNopToken *lexer.Token
 	)
 	hook = func(st *Statement, ce ConsumedElement) (ElementHook, error) {
+		if st != cur {
+			// A modifier keyword seen in a previous statement does not apply to this one.
+			cur, lastNopToken = st, nil
+		}
 		if ce.IsSymbol() {
 			return hook, nil
 		}
@@ -1025,10 +1050,15 @@ func limitCollection() ElementHook {
 func collectGlobalBounds() ElementHook {
 	var (
 		hook      ElementHook
+		cur       *Statement
 		opToken   *lexer.Token
 		lastToken *lexer.Token
 	)
 	hook = func(st *Statement, ce ConsumedElement) (ElementHook, error) {
+		if st != cur {
+			// The bound being collected belongs to one statement only.
+			cur, opToken, lastToken = st, nil, nil
+		}
 		if ce.IsSymbol() {
 			return hook, nil
 		}
